@@ -112,6 +112,25 @@ def base_compound():
         "roles": {"f": "src/f.py", "g": "src/g.c", "h": "h.py", "k": "k.sh"}}
 
 
+def base_toml_shared():
+    """One `closest` table shared by several files with different own headers
+    (state carried from one file to the next inside one run shows here)."""
+    t = "REUSE.toml"
+    sh = lambda: part("TC", ["2009 Shared"], ["MIT"], toml=t, tpath="shared/**")
+    return {"name": "toml-shared", "files": {
+        "src/f.py": _f("#", [part("H", [C_F], ["MIT"])]),
+        "src/g.c": _f("c", [part("H", [C_G], ["0BSD"])]),
+        "h.py": _f("#", [part("H", [C_H], ["MIT"])]),
+        "k.sh": _f("#", [part("H", [C_K], ["0BSD"])]),
+        "shared/a_conly.py": _f("#", [part("H", ["2008 Own"], []), sh()]),
+        "shared/b_none.txt": _f(None, [sh()], body="text\n"),
+        "shared/c_lonly.py": _f("#", [part("H", [], ["0BSD"]), sh()]),
+        "shared/d_none.txt": _f(None, [sh()], body="text\n"),
+        "shared/sub/e_conly.c": _f("c", [part("H", ["2007 Own"], []), sh()]),
+        "shared/sub/f_none.txt": _f(None, [sh()], body="text\n"),
+    }, "licenses": {"LICENSES/MIT.txt": "MIT text\n", "LICENSES/0BSD.txt": "0BSD text\n"}, "roles": {"f": "src/f.py", "g": "src/g.c", "h": "h.py", "k": "k.sh"}}
+
+
 def base_toml_odd():
     """Odd but valid REUSE.toml values: empty copyright string, empty lists,
     a table without any information, several globs in one table."""
@@ -127,7 +146,7 @@ def base_toml_odd():
     }, "licenses": {"LICENSES/MIT.txt": "MIT text\n", "LICENSES/0BSD.txt": "0BSD text\n"}, "roles": {"f": "src/f.py", "g": "src/g.c", "h": "h.txt", "k": "k.sh"}}
 
 
-BASES = [base_headers, base_siblings, base_toml_override, base_toml_nested, base_dep5, base_compound, base_toml_odd]
+BASES = [base_headers, base_siblings, base_toml_override, base_toml_nested, base_dep5, base_compound, base_toml_odd, base_toml_shared]
 BASE_NAMES = [b()["name"] for b in BASES]
 
 # ---- defects ------------------------------------------------------------
@@ -264,7 +283,9 @@ def render(proj):
                     t.append("SPDX-License-Identifier = %s" % json.dumps(p["l"]))
                 elif p["mech"] == "TA":
                     t.append("SPDX-License-Identifier = []")
-                tomls.setdefault(p["toml"], []).append("\n".join(t) + "\n")
+                table = "\n".join(t) + "\n"
+                if table not in tomls.setdefault(p["toml"], []):  # identical tables are written once (one shared table)
+                    tomls[p["toml"]].append(table)
             elif p["mech"] == "D5":
                 if not (p["c"] and len(p["l"]) == 1):
                     raise AssertionError("a dep5 paragraph needs copyright and exactly one licence expression")
